@@ -961,6 +961,7 @@ func runC13(c *Ctx) {
 	ruleSidePairing(c)
 	ruleGuardSubject(c)
 	ruleStaleAfterEdit(c)
+	ruleUnifyConsumes(c)
 	ruleAllocBounded(c, "mdiff", false)
 
 	// ---- R-LR-MIRROR
@@ -1213,7 +1214,7 @@ func ruleNewCursorPair(c *Ctx, newFn *ssa.Function, chunkT *types.Named) {
 				if cl == nil {
 					continue
 				}
-				if bo, ok := x.Val.(*ssa.BinOp); ok && bo.Op == token.ADD && bo.Y == d.d {
+				if bo, ok := x.Val.(*ssa.BinOp); ok && bo.Op == token.ADD && (bo.Y == d.d || sym(bo.Y) == sym(d.d)) {
 					if a, ok := loadAddr(bo.X); ok && cell(a) == cl {
 						if cl == want {
 							paired = true
@@ -1223,7 +1224,7 @@ func ruleNewCursorPair(c *Ctx, newFn *ssa.Function, chunkT *types.Named) {
 					}
 				}
 			case *ssa.BinOp:
-				if x.Op == token.ADD && x.Y == d.d {
+				if x.Op == token.ADD && (x.Y == d.d || sym(x.Y) == sym(d.d)) {
 					if ph, ok := x.X.(*ssa.Phi); ok {
 						if ssa.Value(ph) == want {
 							paired = true
@@ -1350,6 +1351,27 @@ func ruleTrimSide(c *Ctx) {
 					if k == 0 {
 						return "first"
 					}
+				}
+			}
+			// a private accessor of the package (lastEdit(es) = &es[len(es)-1] or nil): where its returns point
+			if cal := origin(staticCallee(&x.Call)); cal != nil && cal.Blocks != nil && cal.Pkg != nil && cal.Pkg.Pkg.Path() == unify.Pkg.Pkg.Path() && cal.Signature.Results().Len() == 1 {
+				res, bad := "", false
+				allInstrs(cal, func(in ssa.Instruction) {
+					ret, ok := in.(*ssa.Return)
+					if !ok || isNilConst(ret.Results[0]) {
+						return
+					}
+					w := where(ret.Results[0], seen)
+					if w == "" {
+						return
+					}
+					if res != "" && res != w {
+						bad = true
+					}
+					res = w
+				})
+				if !bad && res != "" {
+					return res
 				}
 			}
 		case *ssa.IndexAddr:
